@@ -80,9 +80,6 @@ func (fr *Frame) callModifies(ins ssa.CallInstruction) ([]string, bool) {
 	for _, m := range spec.Modifies {
 		out = append(out, vc.modComp(m, spec, fr, cc)...)
 	}
-	if spec.PanicsMay {
-		out = append(out, "$panic")
-	}
 	return out, true
 }
 
@@ -934,6 +931,9 @@ func (fr *Frame) execBuiltin(ins *ssa.Call, b *ssa.Builtin, st *State) {
 		}
 		fr.bind(ins, cur)
 		st.m[pc] = "0"
+		// ghost: count the panics swallowed by recover()
+		vc.comp("$recovered", "Int")
+		vc.set(st, "$recovered", fmt.Sprintf("(+ %s (ite (= %s 0) 0 1))", vc.get(st, "$recovered"), cur))
 	case "delete":
 		fr.execMapDelete(ins, st)
 	case "close":
